@@ -201,6 +201,7 @@ def run(ctx):
     # a C library (Fortran binds the user's functions directly) whose fortran_generic entries change the TYPE and the RANK of an
     # argument: every extra interface bound to the same C function must still declare the C function's own parameter types
     open(os.path.join(gd, "gentot.h"), "w").write("double total(const double *values, int nvalues);\nvoid scale(float *values, int nvalues, float by);\n"
+                                                  "#include <complex.h>\nvoid conj_f(float complex *z);\nvoid conj_f2(float complex *z);\nvoid conj_d(double complex *z);\nvoid conj_d2(double complex *z);\n"
                                                   "struct Particle { int id; long cookie; double mass; };\ntypedef struct Particle Particle;\n"
                                                   "void fill_particle(Particle *p, int id, double mass);\ndouble particle_mass(const Particle *p);\n")
     totlib = {"library": "gentot", "language": "c", "c_header": "gentot.h", "options": {"wrap_python": False, "wrap_lua": False},
@@ -211,6 +212,9 @@ def run(ctx):
                                # type still has every member of the C struct, in order
                                {"decl": "struct Particle", "declarations": [{"decl": "int id"}, {"decl": "long cookie", "options": {"wrap_fortran": False}},
                                                                             {"decl": "double mass"}]},
+                               # both spellings of the complex types
+                               {"decl": "void conj_f(complex float *z)"}, {"decl": "void conj_f2(float complex *z)"},
+                               {"decl": "void conj_d(complex double *z)"}, {"decl": "void conj_d2(double complex *z)"},
                                {"decl": "void fill_particle(Particle *p +intent(out), int id, double mass)"},
                                {"decl": "double particle_mass(const Particle *p)"},
                                {"decl": "void scale(float *values +intent(inout), int nvalues, float by)",
